@@ -9,6 +9,14 @@ PLAN = {
  "C13-M1":["C13"], "C13-M2":["C13"], "C14-M1":["C14"], "C14-M2":["C14"], "C15-M1":["C15"], "C15-M2":["C15"],
  "C16-M1":["C01","C16"], "C16-M2":["C16"], "C17-M1":["C17"], "C17-M2":["C17"], "C18-M1":["C18"], "C18-M2":["C18"],
  "C19-M1":["C19"], "C19-M2":["C19"], "C20-M1":["C12","C05","C20"], "C20-M2":["C01","C20"],
+ # round 2 (M3, M4): the check expected to report it first, then the property's own check where that is another one
+ "C01-M3":["C17"], "C01-M4":["C07"], "C02-M3":["C02"], "C02-M4":["C02"], "C03-M3":["C03"], "C03-M4":["C01"],
+ "C04-M3":["C04"], "C04-M4":["C04"], "C05-M3":["C05"], "C05-M4":["C12"], "C06-M3":["C01"], "C06-M4":["C10"],
+ "C07-M3":["C07"], "C07-M4":["C07"], "C08-M3":["C08", "C09"], "C08-M4":["C08"], "C09-M3":["C09"], "C09-M4":["C09"],
+ "C10-M3":["C06"], "C10-M4":["C10"], "C11-M3":["C11"], "C11-M4":["C11"], "C12-M3":["C12"], "C12-M4":["C12"],
+ "C13-M3":["C10"], "C13-M4":["C13"], "C14-M3":["C14"], "C14-M4":["C14"], "C15-M3":["C15"], "C15-M4":["C15"],
+ "C16-M3":["C16"], "C16-M4":["C16"], "C17-M3":["C17"], "C17-M4":["C17"], "C18-M3":["C18"], "C18-M4":["C18"],
+ "C19-M3":["C19"], "C19-M4":["C19"], "C20-M3":["C14"], "C20-M4":["C13"],
 }
 claimed = {c["property_id"] for c in json.load(open("/verif/MANIFEST.json"))["checks"]}
 def sh(cmd, **kw): return subprocess.run(cmd, shell=True, capture_output=True, text=True, **kw)
